@@ -36,6 +36,51 @@ class Ctx:
         self.summaries = compute_summaries(facts)
         self._fa = {}
         self._roles = {}
+        self._install_inline_policy()
+
+    def _install_inline_policy(self):
+        """which local callees the interpreter evaluates in place: small private helpers without any stream effect that are not themselves
+        anchors of a rule (content hash, run-length merge, metadata object check, inclusive-range-end helper, zoom search)"""
+        facts = self.facts
+        cg = {}
+        for f in facts.user_fns():
+            cg[f["path"]] = set(c["fn"] for c in calls(f["body"]) if c["fn"] in facts.fns)
+        def reach(a, seen=None):
+            seen = seen or set()
+            for b in cg.get(a, ()):
+                if b not in seen:
+                    seen.add(b)
+                    reach(b, seen)
+            return seen
+        anchors = set()
+        for f in facts.user_fns():
+            cs = [c["fn"] for c in calls(f["body"])]
+            if "core::hash::Hasher::finish" in cs:
+                anchors.add(f["path"])
+            if any(c.endswith("::last_mut") for c in cs) and self.has_struct(f, "directory::Entry"):
+                anchors.add(f["path"])
+            if "core::ops::range::RangeBounds::end_bound" in cs:
+                anchors.add(f["path"])
+            if "MaxZError" in f["ret"] and "Result<u8" in f["ret"]:
+                anchors.add(f["path"])
+            for n in walk(f["body"]):
+                if n["k"] in ("Let", "LetCond") and _pat_ctor(n.get("pat"), "serde_json::value::Value::Object"):
+                    anchors.add(f["path"])
+                if n["k"] == "Match" and any(_pat_ctor(a["pat"], "serde_json::value::Value::Object") for a in n["arms"]):
+                    anchors.add(f["path"])
+        ok = set()
+        for f in facts.user_fns():
+            p = f["path"]
+            if f["vis"] == "pub" or p in anchors or p in reach(p):
+                continue
+            s = self.summaries.get(p, {})
+            if any(s.values()):
+                continue
+            if f["async"] or "Future<" in f["ret"]:
+                continue
+            ok.add(p)
+        self.inlinable = ok
+        facts.no_inline = lambda fn: fn in ok
 
     def fa(self, fn):
         p = fn["path"]
@@ -133,3 +178,160 @@ def twin_name(path):
 
 def is_asyncish(f):
     return f["async"] or "Future<" in f["ret"]
+
+
+def _pat_ctor(p, ctor):
+    if p is None:
+        return False
+    if p["k"] == "TupleStruct" and p.get("ctor") == ctor:
+        return True
+    for x in p.get("pats", []) or []:
+        if _pat_ctor(x, ctor):
+            return True
+    if isinstance(p.get("pat"), dict):
+        return _pat_ctor(p["pat"], ctor)
+    for f in p.get("fields", []) or []:
+        if _pat_ctor(f["pat"], ctor):
+            return True
+    return False
+
+
+# ------------------------------------------------------------------------------------------------
+# semantic facts established by branch decisions, independent of the idiom used to branch
+# (`if x == 0`, `match x { 0 => .., n => .. }`, `let Some(v) = o else { .. }`, `if let`, `match o { None => .., Some(v) => .. }`, guards, `!`, `&&`, `||`)
+
+def _unmut(t):
+    from rules_reader import unmut
+    return unmut(t)
+
+
+def _atoms(c, truth):
+    if not isinstance(c, tuple) or not c:
+        return
+    if c[0] == "un" and c[1] == "!":
+        yield from _atoms(c[2], not truth)
+    elif c[0] == "bin" and c[1] == "&&":
+        if truth:
+            yield from _atoms(c[2], True)
+            yield from _atoms(c[3], True)
+    elif c[0] == "bin" and c[1] == "||":
+        if not truth:
+            yield from _atoms(c[2], False)
+            yield from _atoms(c[3], False)
+    else:
+        yield c, truth
+
+
+def _pat_top(p):
+    """(kind, payload) of a pattern's top constructor: ('lit', n) | ('ctor', path) | ('any', None)"""
+    while p is not None and p["k"] in ("RefPat", "GuardPat"):
+        p = p["pat"]
+    if p is None:
+        return ("any", None)
+    k = p["k"]
+    if k == "LitPat" and "int" in p:
+        return ("lit", p["int"])
+    if k == "LitPat" and "bool" in p:
+        return ("lit", p["bool"])
+    if k == "TupleStruct":
+        return ("ctor", p.get("ctor"))
+    if k == "Struct":
+        return ("ctor", p.get("adt"))
+    if k == "PathPat":
+        return ("ctor", p.get("def"))
+    return ("any", None)
+
+
+def decision_facts(d):
+    """facts that hold after decision event d, as tuples:
+         ('eq', term, n) ('ne', term, n)           comparisons with an integer constant
+         ('variant', term, ctor_path, bool)        the value is / is not of that enum variant
+         ('empty', term, bool)                     x.is_empty() / x.len() == 0
+         ('rel', op, left_term, right_term)        op in < <= > >= == != (normalised to hold as written)
+         ('bool', term, bool)                      any other boolean atom
+    """
+    out = []
+    how = d.d["how"]
+    v = _unmut(d.d["cond"])
+    if how == "if":
+        for c, pol in _atoms(v, d.d["outcome"] is True):
+            if c[0] == "bin" and c[1] in ("==", "!=", "<", "<=", ">", ">="):
+                op = c[1]
+                if not pol:
+                    op = {"==": "!=", "!=": "==", "<": ">=", "<=": ">", ">": "<=", ">=": "<"}[op]
+                l, r = c[2], c[3]
+                out.append(("rel", op, l, r))
+                for a, b, o in ((l, r, op), (r, l, {"<": ">", "<=": ">=", ">": "<", ">=": "<="}.get(op, op))):
+                    if b[0] == "c":
+                        n = b[1]
+                        if o == "==":
+                            out.append(("eq", a, n))
+                        elif o == "!=":
+                            out.append(("ne", a, n))
+                        elif o == ">" and n == 0:
+                            out.append(("ne", a, 0))
+                        elif o == ">=" and n == 1:
+                            out.append(("ne", a, 0))
+                        elif o == "<" and n == 1:
+                            out.append(("eq", a, 0))
+                        elif o == "<=" and n == 0:
+                            out.append(("eq", a, 0))
+                        if isinstance(a, tuple) and a[0] == "call" and a[1] == "len" and n == 0 and o in ("==", "!=", ">", "<=", "<", ">="):
+                            emp = {"==": True, "<=": True, "!=": False, ">": False}.get(o)
+                            if emp is not None:
+                                out.append(("empty", a[2][0], emp))
+            elif c[0] == "call" and c[1].endswith("::is_empty") and c[2]:
+                out.append(("empty", c[2][0], pol))
+            elif c[0] == "call" and c[1].endswith("::is_some") and c[2]:
+                out.append(("variant", c[2][0], "core::option::Option::Some", pol))
+            elif c[0] == "call" and c[1].endswith("::is_none") and c[2]:
+                out.append(("variant", c[2][0], "core::option::Option::Some", not pol))
+            else:
+                out.append(("bool", c, pol))
+    elif how == "match":
+        arms = (d.node or {}).get("arms") or []
+        i = d.d["outcome"]
+        kind, pay = _pat_top(d.d.get("pat"))
+        if kind == "lit":
+            out.append(("eq", v, pay))
+        elif kind == "ctor":
+            out.append(("variant", v, pay, True))
+        for a in arms[:i]:
+            if a.get("guard") is not None:
+                continue
+            k2, p2 = _pat_top(a["pat"])
+            if k2 == "lit":
+                out.append(("ne", v, p2))
+            elif k2 == "ctor":
+                out.append(("variant", v, p2, False))
+    elif how in ("letelse", "iflet"):
+        kind, pay = _pat_top(d.d.get("pat"))
+        if kind == "ctor":
+            out.append(("variant", v, pay, d.d["outcome"] is True))
+        elif kind == "lit":
+            out.append(("eq" if d.d["outcome"] is True else "ne", v, pay))
+    elif how == "try":
+        out.append(("variant", v, "core::result::Result::Ok", d.d["outcome"] is True))
+    # Option: not Some ⇔ None
+    more = []
+    for f in out:
+        if f[0] == "variant" and f[2] in ("core::option::Option::Some", "core::option::Option::None"):
+            other = "core::option::Option::None" if f[2].endswith("Some") else "core::option::Option::Some"
+            more.append(("variant", f[1], other, not f[3]))
+    return out + more
+
+
+def path_facts(p, upto=None, after=None):
+    for d in p.decisions(upto):
+        if after is not None and d.seq <= after:
+            continue
+        for f in decision_facts(d):
+            yield f, d
+
+
+def knows(p, fact, upto=None, after=None):
+    """the decision event that establishes `fact` on this path before event `upto`, or None"""
+    for f, d in path_facts(p, upto, after):
+        if f == fact:
+            return d
+    return None
